@@ -35,6 +35,21 @@ class PreErr(Exception):
         self.code = code
 
 
+class FalsyStageErr(StageErr):
+    """a falsy exception object (container-like): still a failure"""
+    def __len__(self):
+        return 0
+
+
+class FalsyPreErr(PreErr):
+    def __bool__(self):
+        return False
+
+
+def stage_err(code):
+    return (FalsyStageErr if code % 4 == 3 else StageErr)(code)
+
+
 class SrcErr(Exception):
     def __init__(self, code):
         super().__init__(code)
@@ -45,15 +60,22 @@ def _dur(xx, scale):
     return ((xx * 7919) % 5) * scale / 1000.0      # scrambles the completion order
 
 
-def f(xx, *, fail, off, scale):
+CALLS = {}        # case id -> inputs the worker function received (thread pool / event loop only: same process)
+
+
+def f(xx, *, fail, off, scale, cid=None):
+    if cid is not None:
+        CALLS.setdefault(cid, []).append(xx - off)
     time.sleep(_dur(xx, scale))
     if (xx - off) in fail:
-        raise StageErr(fail[xx - off])
+        raise stage_err(fail[xx - off])
     return 3 * xx + 1
 
 
-async def af(xx, *, fail, off, scale):
+async def af(xx, *, fail, off, scale, cid=None):
+    if cid is not None:
+        CALLS.setdefault(cid, []).append(xx - off)
     await asyncio.sleep(_dur(xx, scale))
     if (xx - off) in fail:
-        raise StageErr(fail[xx - off])
+        raise stage_err(fail[xx - off])
     return 3 * xx + 1
